@@ -140,6 +140,25 @@ impl Remover {
                             })
                     };
 
+                    #[cfg(feature = "verif-hooks")]
+                    crate::verif::emit(|| crate::verif::Event::Decision {
+                        open_start: el.start_token.byte_start,
+                        close_end: el.end_token.byte_end,
+                        name: el.start_element.name.to_string(),
+                        is_skip: is_skip(&el.start_element),
+                        evaluator: self
+                            .removal_evaluators
+                            .get(el.start_element.name)
+                            .map(|evaluator| evaluator.is_removal(&el.start_element)),
+                        outcome: range.as_ref().map(|((r, p), ready)| {
+                            (
+                                (r.start, r.end),
+                                p.as_ref().map(|p| (p.start, p.end)),
+                                *ready,
+                            )
+                        }),
+                    });
+
                     let (children, pending_removal_children) =
                         self.collect_removable_ranges(&el.children, collect_pending_removals);
 
